@@ -512,6 +512,29 @@ class Ctx:
         return float(v)
 
 
+class NullCtx:
+    """context for concrete (float) runs of a harness: only carries the registries
+    that helper code keys on the current context"""
+
+    def __init__(self):
+        self.opts = {}
+        self.keepalive = []
+        self.trace_tags = []
+        self.queries = 0
+
+
+class concrete_context:
+    def __enter__(self):
+        global CUR
+        self._old = CUR
+        CUR = NullCtx()
+        return CUR
+
+    def __exit__(self, *a):
+        global CUR
+        CUR = self._old
+
+
 class PathResult:
     __slots__ = (
         "decisions",
